@@ -9,13 +9,13 @@ from .engine import *  # noqa
 from .engine import Val, State, Obligation, Unsupported, EngineError, fresh, I, B, S, R
 from .expr import ExprMixin
 from .calls import CallMixin
-from .loops import LoopMixin
+from .loops import LoopMixin, CompMixin
 from .builtins import BuiltinMixin
 
 MAX_STATES = 4000
 
 
-class Executor(ExprMixin, CallMixin, LoopMixin, BuiltinMixin):
+class Executor(ExprMixin, CallMixin, LoopMixin, CompMixin, BuiltinMixin):
     def __init__(self, world, prop="", bounded=None):
         self.world = world
         self.prop = prop
@@ -30,8 +30,11 @@ class Executor(ExprMixin, CallMixin, LoopMixin, BuiltinMixin):
         self.collect = True             # False during dry runs
         self.depth = 0
         self.write_log = None
+        self.write_refs = None
         self.axioms = []                # global background facts (instantiated lemma facts)
         self.loop_ord_cache = {}
+        self.epochs = {}                # allocation epochs: base id -> (previous base id, refs used there)
+        self.old_refs = set()           # ids of input reference constants (allocated before entry)
 
     def contract_of(self, qualname):
         a = getattr(self, "active", None)
@@ -57,11 +60,41 @@ class Executor(ExprMixin, CallMixin, LoopMixin, BuiltinMixin):
                 if cur.status != "run":
                     nxt.append(cur)
                 else:
-                    nxt.extend(self.exec_stmt(s, cur))
+                    outs = self.exec_stmt(s, cur)
+                    gc = self.ghost_after(s, cur)
+                    if gc:
+                        outs2 = []
+                        for o in outs:
+                            if o.status == "run":
+                                outs2.extend(self.exec_block(gc, o))
+                            else:
+                                outs2.append(o)
+                        outs = outs2
+                    nxt.extend(outs)
             if len(nxt) > MAX_STATES:
                 raise Unsupported("path explosion")
             states = nxt
         return states
+
+    def ghost_after(self, stmt, st):
+        """Ghost statements the contract attaches after a statement (matched by source-text prefix)."""
+        fr = st.frame
+        if fr is None or not hasattr(fr, "qualname"):
+            return None
+        c = getattr(self, "active", {}).get(fr.qualname)
+        if not c or not c.get("ghost_code"):
+            return None
+        out = []
+        txt = None
+        for k, g in enumerate(c["ghost_code"]):
+            if g.get("after") is None:
+                continue
+            if txt is None:
+                txt = ast.unparse(stmt)
+            if txt.startswith(g["after"]):
+                self.ghost_hit.add(k)
+                out.extend(ast.parse(g["code"]).body)
+        return out or None
 
     def flush(self, st):
         sp = st.spawned
@@ -314,6 +347,9 @@ class Executor(ExprMixin, CallMixin, LoopMixin, BuiltinMixin):
         v = Val(ty, t)
         if assume_valid:
             self.assume_valid(v, st)
+            if is_reflike(ty) and st.alloc_base is not None and st.alloc_base.get_id() in self.epochs \
+                    and self.epochs[st.alloc_base.get_id()] == (None, 0) and st.alloc_off == 0:
+                self.old_refs.add(t.get_id())
         return v
 
     def assume_valid(self, v, st, depth=0):
@@ -370,11 +406,14 @@ class Executor(ExprMixin, CallMixin, LoopMixin, BuiltinMixin):
         fi = self.world.function(qualname)
         c = contract or CONTRACTS[qualname]
         self.active = {qualname: c}
+        self.ghost_hit = set()
         short = qualname
         self.cur_fn = short
         st = State(self)
         st.frame = fi
-        st.alloc = fresh("alloc0", I)
+        a0 = fresh("alloc0", I)
+        self.epochs[a0.get_id()] = (None, 0)
+        st.alloc_base, st.alloc_off = a0, 0
         st.assume(st.alloc > 1)
         self.entry_alloc = st.alloc
         env = {}
@@ -392,7 +431,17 @@ class Executor(ExprMixin, CallMixin, LoopMixin, BuiltinMixin):
         st.old.env = dict(env)
         self.entry_state = st.old
         self.entry_env = env
+        for gname, gspec in c.get("ghost_vars", {}).items():
+            gv = self.eval(ast.parse(gspec[1], mode="eval").body, st)
+            gt = parse_type(gspec[0])
+            st.env[gname] = Val(gt, gv.t) if gv.ty.name == "List" and gv.ty.args[0] is None else gv
+        if fi.is_generator:
+            rty = parse_type(c["returns"])
+            st.env["__yield__"] = self.new_list(rty.args[0], st)
         outs = self.exec_block(fi.body, st)
+        for k, g in enumerate(c.get("ghost_code", [])):
+            if k not in self.ghost_hit:
+                raise Unsupported(f"ghost anchor {g.get('after') or 'yield'!r} not found in {qualname} (stale contract)")
         exits = []
         for o in outs:
             if o.status == "run":
@@ -405,7 +454,13 @@ class Executor(ExprMixin, CallMixin, LoopMixin, BuiltinMixin):
     def check_exit(self, fi, c, o, env):
         if o.status == "return":
             penv = dict(env)
-            penv["result"] = o.ret
+            penv["result"] = o.ret if not fi.is_generator else o.env["__yield__"]
+            for gname in list(c.get("ghost_vars", {})) + list(c.get("ghost_returns", {})):
+                if gname in o.env:
+                    penv[gname] = o.env[gname]
+            for gname, gv in o.env.items():
+                if gname.startswith("g_") and gname not in penv:
+                    penv[gname] = gv
             for k, e in enumerate(c["ensures"]):
                 goal = self.spec_truth(e, penv, o, old=o.old)
                 self.oblige(o, f"ensures#{k}", goal, clause=e)
